@@ -162,8 +162,18 @@ def run_case(case: dict) -> dict:
     pm.event_timer = cfg["evt"] if cfg["evt"] >= 0 else None
     pm.sync_start_value = cfg["sync"] if cfg["sync"] >= 0 else None
     pm.clear()
-    for idx, sub, n in cfg["map"]:
-        pm.add_variable(idx, sub, n)
+    spell = case.get("spell") or []
+    for k, (idx, sub, n) in enumerate(cfg["map"]):
+        how = spell[k] if k < len(spell) else "num"
+        is_rec = list(objs.get(idx, {})) != [0]
+        if how == "dotted" and is_rec:        # 'Record.Member'
+            pm.add_variable(f"Rec{idx:04X}.Rec{idx:04X}m{sub}", length=n)
+        elif how == "names" and is_rec:       # record name, member name
+            pm.add_variable(f"Rec{idx:04X}", f"Rec{idx:04X}m{sub}", n)
+        elif how in ("dotted", "names") and not is_rec:
+            pm.add_variable(f"Obj{idx:04X}", 0, n)
+        else:
+            pm.add_variable(idx, sub, n)
     raised = False
     try:
         pm.save()
@@ -172,6 +182,18 @@ def run_case(case: dict) -> dict:
         ev.append({"e": "note", "repr": repr(exc)[:150]})
         ev.pop()
     ev.append({"e": "saved", "raised": raised})
+    if case.get("resave"):
+        # the device loses its configuration (power cycle) and the same node object saves once more
+        present_keep = dev.present
+        dev.__init__(com_idx, map_idx, case["dev0"], ev)
+        dev.present = present_keep
+        ev.append({"e": "devreset"})
+        raised = False
+        try:
+            pm.save()
+        except Exception as exc:  # noqa
+            raised = True
+        ev.append({"e": "saved", "raised": raised})
     net2, node2, pm2 = mk_node()
     raised = False
     try:
